@@ -140,6 +140,20 @@ def truthy(v) -> bool | None:
     return None
 
 
+def _foldable():
+    import posixpath
+    import urllib.parse as up
+
+    return {
+        "urllib.parse.quote": up.quote, "urllib.parse.unquote": up.unquote,
+        "urllib.parse.quote_plus": up.quote_plus, "urllib.parse.unquote_plus": up.unquote_plus,
+        "posixpath.normpath": posixpath.normpath, "posixpath.join": posixpath.join,
+    }
+
+
+_FOLDABLE = _foldable()
+
+
 class Interp:
     def __init__(self, proj: Project, fi: FunctionInfo, depth: int = 0, args: dict | None = None) -> None:
         self.proj = proj
@@ -454,6 +468,9 @@ class Interp:
                     None if grow else subj.maxb,
                 )
             return StrV("str")
+        folded = self._fold_stdlib(c, st)
+        if folded is not None:
+            return folded
         if mc is not None:
             recv_e, name = mc
             recv = self.eval(recv_e, st)
@@ -472,6 +489,34 @@ class Interp:
             if callee is not None and callee.node.name != "__init__":
                 return summarise(self.proj, callee, c, self, st)
         return TOP
+
+    def _fold_stdlib(self, c: ast.Call, st):
+        """Constant folding of pure standard-library string functions on exact
+        arguments (the library, not repository code, is evaluated)."""
+        try:
+            ext = self.res.external_name(self.fi, c)
+        except Exception:  # noqa: BLE001
+            ext = None
+        if ext not in _FOLDABLE:
+            return None
+        args, kw = [], {}
+        for a in c.args:
+            v = self.eval(a, st)
+            if isinstance(v, StrV) and v.exact is not None:
+                args.append(v.exact)
+            else:
+                return None
+        for k in c.keywords:
+            v = self.eval(k.value, st) if k.arg else None
+            if k.arg and isinstance(v, StrV) and v.exact is not None:
+                kw[k.arg] = v.exact
+            else:
+                return None
+        try:
+            r = _FOLDABLE[ext](*args, **kw)
+        except Exception:  # noqa: BLE001
+            return None
+        return lit(r) if isinstance(r, (str, bytes)) else None
 
     def _str_method(self, recv: StrV, name: str, c: ast.Call, st):
         args = [self.eval(a, st) for a in c.args]
